@@ -256,6 +256,9 @@ class Interp:
         # 1. establishment
         v0_, lem0 = split(view(lo))
         for var, want in v0_.items():
+            if isinstance(want, Havoc):
+                for k_, f_ in enumerate(want.pred(self._acc_get(env, var), lo)): eng.oblige(f"loop{ordinal}/init/{var}/inv{k_}", f_, kind="inv")
+                continue
             self.equiv(self._acc_get(env, var), want, f"loop{ordinal}/init/{var}")
         for k, l in enumerate(lem0): eng.oblige(f"loop{ordinal}/init/lemma{k}", l, kind="inv")
         ph = eng.phase(2, f"loop{ordinal}")
@@ -266,11 +269,18 @@ class Interp:
             vi, lemi = split(view(i))
             for l in lemi: eng.assume(l)
             for var, val in vi.items():
+                if isinstance(val, Havoc):
+                    fresh_ = val.make()
+                    for f_ in val.pred(fresh_, i): eng.assume(f_)
+                    val = fresh_
                 self._acc_set(env, var, val)
             self.assign(s.target, elem(i), env)
             self.exec_block(s.body, env)
             vn, lemn = split(view(i + 1))
             for var, want in vn.items():
+                if isinstance(want, Havoc):
+                    for k_, f_ in enumerate(want.pred(self._acc_get(env, var), i + 1)): eng.oblige(f"loop{ordinal}/preserve/{var}/inv{k_}", f_, kind="inv")
+                    continue
                 self.equiv(self._acc_get(env, var), want, f"loop{ordinal}/preserve/{var}")
             for k, l in enumerate(lemn): eng.oblige(f"loop{ordinal}/preserve/lemma{k}", l, kind="inv")
             extra = getattr(view, "after_body", None)
@@ -280,6 +290,10 @@ class Interp:
         vx, lemx = split(view(n_exit))
         for l in lemx: eng.assume(l)
         for var, val in vx.items():
+            if isinstance(val, Havoc):
+                fresh_ = val.make()
+                for f_ in val.pred(fresh_, n_exit): eng.assume(f_)
+                val = fresh_
             self._acc_set(env, var, val)
 
     def _acc_get(self, env, var):
@@ -449,6 +463,9 @@ class Interp:
                 if all(self.truth(self.eval(c, env2)) for c in gen.ifs):
                     out.append(self.eval(e.elt, env2))
             return out
+        if isinstance(it, QList) and not gen.ifs and isinstance(e.elt, ast.Attribute) and e.elt.attr == "id" \
+                and isinstance(e.elt.value, ast.Name) and isinstance(gen.target, ast.Name) and e.elt.value.id == gen.target.id:
+            return QIds(it)
         if isinstance(it, SList):
             if gen.ifs: return Opaque("filtered-list")      # only ever rendered into a message
             def elem(i, it=it, env=env):
@@ -560,6 +577,12 @@ class Interp:
         return conv(a, b if isinstance(b, Qty) else a), conv(b, a if isinstance(a, Qty) else b)
 
     def contains(self, container, x):
+        if isinstance(container, QIds) and isinstance(x, PyNum):
+            k = self.eng.fresh("k_in", I)
+            lo = container.lo if container.lo is not None else z3.IntVal(0)
+            hi = container.hi if container.hi is not None else container.lst.n
+            L = container.lst
+            return self.eng.decide(z3.Exists([k], z3.And(lo <= k, k < hi, L.idf(L.src(k)) == x.z)))
         if isinstance(container, (list, tuple)):
             for y in container:
                 if self.truth(self.compare(ast.Eq(), x, y) if not (isinstance(x, str) and isinstance(y, str)) else x == y):
@@ -654,6 +677,10 @@ class Interp:
         if isinstance(o, Opaque) and o.what == "Sources": return Opaque("source", name)
         if isinstance(o, Opaque) and o.what == "timedelta" and name == "seconds":
             return PyNum((o.payload * 60) % 86400)     # timedelta.seconds: seconds part only (days dropped), ticks are minutes
+        if isinstance(o, QElem):
+            if name == "id": return PyNum(o.lst.idf(o.j))
+            raise Unsupported(f"attribute {name} of a chain element")
+        if isinstance(o, QList): return BoundMethod(o, name)
         if isinstance(o, (Arr, PintAccessor, SDict, SList, list, str, Label, Unit, Opaque, tuple, ILoc)):
             return BoundMethod(o, name)
         if isinstance(o, ClassRef):
@@ -753,6 +780,13 @@ class Interp:
         if isinstance(base, Arr) and isinstance(key, PyNum) and z3.is_int_value(key.z) and key.z.as_long() in (0, -1) and base.origin is not None:
             self.index_facts(base.origin)
             return PyNum(base.mag(base.origin.tmin if key.z.as_long() == 0 else base.origin.tmax))
+        if isinstance(base, QList) and isinstance(key, PyNum):
+            self.lib_pre("list index in range", z3.And(key.z >= 0, key.z < base.n))
+            return QElem(base, base.src(key.z))
+        if isinstance(base, QIds) and isinstance(key, tuple) and key and key[0] == "slice":
+            lo = key[1].z if key[1] is not None else z3.IntVal(0)
+            hi = key[2].z if key[2] is not None else base.lst.n
+            return QIds(base.lst, lo, hi)
         if isinstance(base, ILoc):
             if base.kind == "dtypes.iloc": return ("dtype", base.target[1])
             if base.kind == "iloc" and isinstance(base.target, Series) and isinstance(key, PyNum) and z3.is_int_value(key.z) \
@@ -1094,6 +1128,11 @@ class Interp:
             if name == "get":
                 k = self.dict_key(args[0])
                 return recv.d.get(k, args[1] if len(args) > 1 else NONE)
+        if isinstance(recv, QList) and name == "append" and isinstance(args[0], QElem):
+            n0, src0, j = recv.n, recv.src, args[0].j
+            recv.src = lambda p, n0=n0, src0=src0, j=j: z3.If(p == n0, j, src0(p))
+            recv.n = n0 + 1
+            return NONE
         if isinstance(recv, list):
             if name == "append": recv.append(args[0]); return NONE
         if isinstance(recv, ClassRef) and name == "__new__":
@@ -1218,6 +1257,7 @@ class Interp:
             if isinstance(x, (list, tuple, str)): return PyNum(z3.IntVal(len(x)))
             if isinstance(x, SDict): return PyNum(z3.IntVal(len(x.d)))
             if isinstance(x, SList): return PyNum(x.n)
+            if isinstance(x, QList): return PyNum(x.n)
             if isinstance(x, DF):
                 if x.vec.n is None: raise Unsupported("len of series without length")
                 eng.assume(x.vec.n >= 0)
